@@ -42,7 +42,7 @@ def setup():
     # haplotypes
     with open(_dir / "h.hap", "w") as f:
         f.write("H\t1\t10\t30\tH1\nH\t1\t20\t30\tH2\nR\t2\t15\t18\tR1\nH\t2\t15\t15\tH3\n")
-        f.write("V\tH1\t10\t11\tv1\tC\nV\tH1\t30\t31\tv3\tA\nV\tH2\t20\t21\tv2\tC\nV\tH2\t30\t31\tv3\tC\nV\tH3\t15\t16\tv4\tC\n")
+        f.write("V\tH1\t30\t31\tv3\tA\nV\tH1\t10\t11\tv1\tC\nV\tH2\t20\t21\tv2\tC\nV\tH2\t30\t31\tv3\tC\nV\tH3\t15\t16\tv4\tC\n")  # H1's V lines are not in position order
     return _dir
 
 
@@ -407,6 +407,16 @@ def _hp_query(h, gts):
     from haptools import data as D
 
     out = {"to_str": list(h.to_str())}
+    from haptools.data import Haplotype as _H
+
+    per = {}
+    for hid, rec in h.data.items():
+        if isinstance(rec, _H):
+            try:
+                per[hid] = np.asarray(rec.transform(gts)).astype(int).tolist()
+            except Exception as e:  # noqa
+                per[hid] = type(e).__name__
+    out["per_haplotype_transform"] = per
     try:
         hg = h.transform(gts, D.GenotypesVCF(fname=None, log=SD.silent_log()))
         out["transform_ids"] = [str(x) for x in hg.variants["id"]]
@@ -414,6 +424,28 @@ def _hp_query(h, gts):
     except Exception as e:  # noqa
         out["transform_error"] = type(e).__name__
     return out
+
+
+def _fresh_from_text(h):
+    """a brand-new object holding the same records in the same order: written out and read back, so that it shares no
+    record objects (and none of their cached attributes) with the object under test"""
+    from haptools import data as D
+
+    f = _dir / "fresh.hap"
+    lines = []
+    for rec in h.data.values():
+        lines.append(h.types["H" if isinstance(rec, D.Haplotype) else "R"].to_hap_spec(rec))
+    for hid, rec in h.data.items():
+        for v in getattr(rec, "variants", ()):
+            lines.append(h.types["V"].to_hap_spec(v, hid))
+    fresh = D.Haplotypes(f, log=SD.silent_log())
+    if not lines:
+        fresh.data = {}
+        fresh.index(force=True)
+        return fresh
+    open(f, "w").write("\n".join(lines) + "\n")
+    fresh.read()
+    return fresh
 
 
 def impl_hist_hp(case):
@@ -437,10 +469,7 @@ def impl_hist_hp(case):
             if not o["inplace"]:
                 e["returned_ids"] = list(r.data.keys())
                 e["returned_query"] = _hp_query(r, gts)
-                fresh = D.Haplotypes(h.fname, log=log)
-                fresh.data = dict(r.data)
-                fresh.index(force=True)
-                e["returned_fresh"] = _hp_query(fresh, gts)
+                e["returned_fresh"] = _hp_query(_fresh_from_text(r), gts)
         elif o["k"] == "sort":
             h.sort()
         elif o["k"] == "index":
@@ -454,10 +483,7 @@ def impl_hist_hp(case):
                 e["merge_error"] = True
         elif o["k"] == "query":
             e["query"] = _hp_query(h, gts)
-            fresh = D.Haplotypes(h.fname, log=log)
-            fresh.data = dict(h.data)
-            fresh.index(force=True)
-            e["fresh"] = _hp_query(fresh, gts)
+            e["fresh"] = _hp_query(_fresh_from_text(h), gts)
         e["ids"] = list(h.data.keys())
         trace.append(e)
     return {"trace": trace}
